@@ -7,7 +7,80 @@ pub mod points;
 pub mod props;
 pub mod selftest;
 
-/// additional self tests registered by later modules (curve constants, hash goldens)
+/// additional self tests: fast reference routines against their definitional versions, curve constants
+/// against what crrl publishes
 pub fn selftest_extra() -> Vec<String> {
-    Vec::new()
+    use refmodel::bf::{self, F254};
+    use refmodel::pf;
+    let mut errs = Vec::new();
+    let mut st = 0x1234_5678_9ABC_DEF0u64;
+    let mut next = || {
+        st ^= st << 13;
+        st ^= st >> 7;
+        st ^= st << 17;
+        st
+    };
+    let mut r128 = || ((next() as u128) << 64) | next() as u128;
+    for i in 0..400 {
+        let (a, b) = (r128(), if i % 7 == 0 { 0 } else { r128() });
+        if bf::mul127(a, b) != bf::mul127_slow(a, b) {
+            errs.push(format!("refmodel mul127 fast != slow for {a:x} {b:x}"));
+        }
+        if bf::sq127(a) != bf::mul127_slow(a, a) {
+            errs.push(format!("refmodel sq127 fast != slow for {a:x}"));
+        }
+        let x = F254(a, b);
+        if x.sq() != x.sq_slow() {
+            errs.push("refmodel F254 sq fast != slow".into());
+        }
+        if i < 20 && x.inv() != x.inv_slow() {
+            errs.push("refmodel F254 inv fast != slow".into());
+        }
+    }
+    for g in 0..points::NGROUPS {
+        let r = points::rg(g);
+        let n = r.order();
+        if !pf::is_probable_prime(&n) {
+            errs.push(format!("{}: group order not prime", r.name()));
+        }
+        if !r.is_neutral(&r.mul(&n, &r.base())) || r.is_neutral(&r.base()) {
+            errs.push(format!("{}: [order]B != neutral in the reference model", r.name()));
+        }
+    }
+    {
+        use points::Grp;
+        macro_rules! chk {
+            ($P:ty) => {{
+                let g = <$P as Grp>::G;
+                let r = points::rg(g);
+                if <$P as Grp>::encode(<$P as Grp>::base()) != r.encode(&r.base()) {
+                    errs.push(format!("{}: BASE encoding differs between crrl and the reference model", r.name()));
+                }
+                if <$P as Grp>::encode(<$P as Grp>::neutral()) != r.encode(&r.neutral()) {
+                    errs.push(format!("{}: NEUTRAL encoding differs between crrl and the reference model", r.name()));
+                }
+                if <<$P as Grp>::S as fieldapi::PF>::modulus() != r.order() {
+                    errs.push(format!("{}: scalar modulus differs from the reference group order", r.name()));
+                }
+            }};
+        }
+        chk!(crrl::ed25519::Point);
+        chk!(crrl::ed448::Point);
+        chk!(crrl::p256::Point);
+        chk!(crrl::secp256k1::Point);
+        chk!(crrl::jq255e::Point);
+        chk!(crrl::jq255s::Point);
+        chk!(crrl::gls254::Point);
+        chk!(crrl::ristretto255::Point);
+        chk!(crrl::decaf448::Point);
+    }
+    // prime-field inverse: Euclid vs Fermat
+    let p = (num_bigint::BigUint::from(1u32) << 255) - 19u32;
+    for _ in 0..50 {
+        let a = num_bigint::BigUint::from(r128()) * num_bigint::BigUint::from(r128()) % &p;
+        if pf::inv(&a, &p) != pf::inv_fermat(&a, &p) {
+            errs.push("refmodel pf::inv != Fermat inverse".into());
+        }
+    }
+    errs
 }
